@@ -118,7 +118,12 @@ def run_note(case):
         n.transpose(sh, False)
         S.trans(1)
         site2 = "Note(%r, %d) up %r then down %r" % (name, octave, sh, sh)
-        if P.homogeneous(name):
+        if len(name) - 1 > MAX_ACC_RT - 1:
+            # the way there passes through more than six accidentals, which the interval functions respell (C02): the
+            # pitch and the letter come back, the spelling is not judged (as in the history clause)
+            if judge_note(S, site2, n, name[0], start, tags):
+                S.count("note_round_trips_pitch_only")
+        elif P.homogeneous(name):
             if (n.name, n.octave) != (name, octave):
                 S.problem(site2, [name, octave], [n.name, n.octave], detail={"via": list(target)}, tags=tags)
             else:
@@ -806,6 +811,10 @@ def explore(ctx):
     ctx.bound("shorthands", SH_ALL)
     if ctx.want("note"):
         ctx.product("note", names, lambda nm: ([nm, o, sh, up] for o in octaves for sh in SH_ALL for up in (True, False)))
+        # names of four and five accidentals of one kind (the spelling of the result may come back from the other side: fix e3c5df2)
+        far = [L + a * k for L in "CDEFGAB" for a in "#b" for k in (4, 5)]
+        ctx.bound("note_names_far", far)
+        ctx.product("note", far, lambda nm: ([nm, o, sh, up] for o in (0, 2, 9) for sh in SH_ALL for up in (True, False)))
     if ctx.want("note_pair"):
         pn = ctx.pick(P.canon_names(1), P.names(2))
         po = ctx.pick([0, 1, 4], [0, 1, 2, 4, 9])
@@ -831,8 +840,8 @@ def explore(ctx):
         depth = ctx.pick(3, 4)
         aset = ctx.pick("narrow", "narrow")
         # quick: the chord-only and the tuplet-value track (many notes, nothing structurally new) go one level less deep
-        # thorough: the tracks added for particular regressions (list positions 10 and up) go one level less deep than the first ten
-        depths = {i: (depth - 1 if ((ctx.quick and i in (1, 3, 6, 7, 8, 9)) or i >= 10) else depth) for i in range(len(ZOO))}
+        # thorough: the tracks added for particular regressions (list positions 8 and up) go one level less deep than the first eight
+        depths = {i: (depth - 1 if ((ctx.quick and i in (1, 3, 6, 7)) or i >= 8) else depth) for i in range(len(ZOO))}
         ctx.bound("history_depth", {str(i): d for i, d in depths.items()})
         ctx.bound("history_actions", {"set": aset, "targets": {str(i): action_targets(i, aset) for i in range(len(ZOO))}, "ops": bfs_ops()})
         for i in range(len(ZOO)):
@@ -840,7 +849,7 @@ def explore(ctx):
         if not ctx.quick:
             ctx.bound("history_wide_depth", 3)
             for i in range(len(ZOO)):
-                if len(ZOO[i]) > 1 and i < 10:            # on a one-bar track the wide set is the narrow one
+                if len(ZOO[i]) > 1 and i < 8:            # on a one-bar track the wide set is the narrow one
                     ctx.bfs("history", HistorySpec(i, "wide"), 3, label="history track %d wide" % i)
     if not ctx.only:
         ctx.guard("note transpositions verified", ctx.counter("note_transpositions_ok"), 30000)
